@@ -281,6 +281,15 @@ def mget(m, k, name):
     return v.is_set() if hasattr(v, 'is_set') else v
 
 
+NATIVE_UF = {}
+
+
+def uf(name, *args):
+    """application of the pure function `name` (symbolically an uninterpreted function:
+    only determinism is known; natively the registered real function)"""
+    return NATIVE_UF[name](*args)
+
+
 def fresh_int():
     """ghost havoc (only meaningful symbolically)."""
     return 0
